@@ -34,6 +34,11 @@ def store_functions(ctx):
     for m in STORE_MODULES:
         ctx.P.module(m)
         out.extend(ctx.P.funcs_in_module(m))
+    # a write entry point pulled up into a base class (template method with per-back-end hooks) is analysed
+    # once per back end, with the hooks bound to that back end
+    for cq, nm in STORE_WRITE_API:
+        if nm not in ctx.P.cls(cq).methods:
+            out.append(ctx.own_method(cq, nm))
     return out
 
 
